@@ -75,11 +75,13 @@ pub enum Mac {
     SemiLit,
     /// the whole body is one .org (the argument is made increasing by the renderer)
     OnlyOrg,
+    /// `.org` directly followed by a segment directive: the position is carried by a segment that holds nothing
+    OrgThenSeg,
     /// the whole body is a segment directive and its way back
     OnlySeg,
 }
 
-const MACS: [Mac; 23] = [Mac::Dw, Mac::Scale, Mac::Regs, Mac::Ldd, Mac::Ten, Mac::Outer, Mac::Mid, Mac::Cond, Mac::Dseg, Mac::Eseg, Mac::Org, Mac::OrgOuter, Mac::EmitOnce, Mac::Maybe, Mac::Probe, Mac::Setter, Mac::Optional, Mac::TailCseg, Mac::TailOrg, Mac::FlagArg, Mac::SemiLit, Mac::OnlyOrg, Mac::OnlySeg];
+const MACS: [Mac; 24] = [Mac::Dw, Mac::Scale, Mac::Regs, Mac::Ldd, Mac::Ten, Mac::Outer, Mac::Mid, Mac::Cond, Mac::Dseg, Mac::Eseg, Mac::Org, Mac::OrgOuter, Mac::EmitOnce, Mac::Maybe, Mac::Probe, Mac::Setter, Mac::Optional, Mac::TailCseg, Mac::TailOrg, Mac::FlagArg, Mac::SemiLit, Mac::OnlyOrg, Mac::OnlySeg, Mac::OrgThenSeg];
 
 enum BL {
     Text(&'static str),
@@ -111,12 +113,13 @@ impl Mac {
             Mac::FlagArg => "m_flagarg",
             Mac::SemiLit => "m_semilit",
             Mac::OnlyOrg => "m_onlyorg",
+            Mac::OrgThenSeg => "m_orgthenseg",
             Mac::OnlySeg => "m_onlyseg",
         }
     }
     fn nparams(self) -> usize {
         match self {
-            Mac::Dw | Mac::Scale | Mac::Dseg | Mac::Eseg | Mac::Org | Mac::OrgOuter | Mac::Maybe | Mac::TailCseg | Mac::TailOrg | Mac::FlagArg | Mac::OnlyOrg => 1,
+            Mac::Dw | Mac::Scale | Mac::Dseg | Mac::Eseg | Mac::Org | Mac::OrgOuter | Mac::Maybe | Mac::TailCseg | Mac::TailOrg | Mac::FlagArg | Mac::OnlyOrg | Mac::OrgThenSeg => 1,
             Mac::EmitOnce | Mac::Probe | Mac::Setter | Mac::OnlySeg => 0,
             Mac::Ldd | Mac::Outer | Mac::Mid | Mac::Cond | Mac::Optional | Mac::SemiLit => 2,
             Mac::Regs => 3,
@@ -155,6 +158,7 @@ impl Mac {
             Mac::Setter => vec![BL::Text(".define PROBE_FLAG"), BL::Text("ldi r29, 7")],
             Mac::Optional => vec![BL::Text(".if @0 > 5"), BL::Text("ldi r29, low(@1) ; uses @1"), BL::Text(".endif"), BL::Text("ldi r30, low(@0) // not @1")],
             Mac::OnlyOrg => vec![BL::Text(".org @0")],
+            Mac::OrgThenSeg => vec![BL::Text("ldi r24, 8"), BL::Text(".org @0"), BL::Text(".dseg"), BL::Text(".byte 1"), BL::Text(".cseg"), BL::Text("ldi r24, 9")],
             Mac::OnlySeg => vec![BL::Text(".dseg"), BL::Text(".cseg")],
             Mac::FlagArg => vec![BL::Text(".ifdef @0"), BL::Text("ldi r28, 5"), BL::Text(".else"), BL::Text("ldi r28, 6"), BL::Text(".endif")],
             Mac::SemiLit => vec![BL::Text(".db ';', low(@1)"), BL::Text(".db \"k;\", low(@0)"), BL::Text("cpi r16, ';' ; a comment with @1"), BL::Text(".db \"\u{b0}C \u{e9}\", low(@0), \"\u{20ac}\", low(@1)")],
@@ -350,6 +354,7 @@ impl MacModel {
         m.insert(Mac::TailCseg, vec![vec![e("0x21")], vec![e("1+1")]]);
         m.insert(Mac::TailOrg, vec![vec![e("0")]]);
         m.insert(Mac::OnlyOrg, vec![vec![e("0")]]);
+        m.insert(Mac::OrgThenSeg, vec![vec![e("0")]]);
         m.insert(Mac::OnlySeg, vec![vec![]]);
         m.insert(Mac::FlagArg, vec![vec![raw("FeatureX")], vec![raw("OtherFlag")], vec![raw("featurex")]]);
         m.insert(Mac::SemiLit, vec![vec![e("1"), e("2")], vec![e("0x10"), e("'a'")]]);
@@ -445,7 +450,7 @@ impl MacModel {
                 }
                 Act::Call(m, ai, c) => {
                     let org_args;
-                    let args = if matches!(m, Mac::Org | Mac::OrgOuter | Mac::TailOrg | Mac::OnlyOrg) {
+                    let args = if matches!(m, Mac::Org | Mac::OrgOuter | Mac::TailOrg | Mac::OnlyOrg | Mac::OrgThenSeg) {
                         // positions must increase along the program: 0x100 per trace position (0x40 in
                         // the long repetition programs, so that `.dw pc` still fits a word at the end)
                         let step = if trace.len() > 200 { 0x40 } else { 0x100 };
